@@ -148,6 +148,9 @@ def check (x : Step) : List (String × String) :=
     (rejected && (x.op == "refresh" || x.op == "fwdauth") && x.status != 401, "C11.rejected_refresh_still_auth", s!"provider rejected the refresh token but {x.op} answered {x.status}"),
     (isProxy && wrote && x.granted == 0 && pre.st == 1 && expired pre now, "C11.stale_token", "expired token forwarded although no refresh succeeded"),
     (x.plan == "ok" && x.contacted > 0 && x.granted > 0 && x.op == "refresh" && x.status != 200, "C11.transient_not_absorbed", "refresh granted but endpoint failed"),
+    -- C09 ---------------------------------------------------------------------------------------------------------------
+    ((x.ck == 2 || pre.st == 2) && isProxy && wrote, "C09.accepted_tampered.history", "a request with an undecryptable cookie / store value got a token"),
+    ((x.ck == 2 || pre.st == 2) && x.status ≥ 500 && !(x.op == "logoutlocal" || x.op == "logout"), "C09.crash_on_tampered", s!"{x.op} answered {x.status} for an undecryptable cookie / store value"),
     -- C15 / C16 ---------------------------------------------------------------------------------------------------------
     (x.leak != "", "C15.token_in_response." ++ x.op, s!"{x.leak} token in an owned-endpoint response"),
     (!isProxy && !x.nocache, "C15.cacheable", s!"{x.op} response lacks no-store/no-cache"),
